@@ -173,7 +173,9 @@ func (p *service) processIncoming(msg message.Message) error {
 
 	case *message.DisconnectMessage:
 		// For DISCONNECT message, we should quit
-		p.sess.Cmsg.SetWillFlag(false)
+		if p.cmsg != nil {
+			p.cmsg.SetWillFlag(false)
+		}
 		return errDisconnect
 
 	default:
